@@ -66,6 +66,7 @@ fn gen_nest(rng: &mut Rng, idx: usize, prev_funcs: &[String]) -> (String, Vec<St
     if idx == 0 {
         text += "S = {\"n\": 0, \"log\": []}\n";
     }
+    let _ = idx;
     for k in 0..nf {
         let name = format!("n{idx}_{k}");
         let callee: Option<String> = {
@@ -316,9 +317,31 @@ fn run_history(case: &Json, fail_at: u64, reuse: bool, probe_after: Option<usize
     let mut probe = Vec::new();
     let mut host = Vec::new();
     let mut ticks = 0;
+    // Frozen library (built fault-free; its fault() sites only run when the history calls it).
+    let mut lib_modules = std::collections::BTreeMap::new();
+    if let Some(lib) = case["lib"].as_str() {
+        kit::ctx(|c| c.fail_at = 0);
+        let fm = Module::with_temp_heap(|m| {
+            {
+                let mut e = Evaluator::new(&m);
+                if let Ok(ast) = kit::parse("lib.star", lib) {
+                    let _ = e.eval_module(ast, kit::globals());
+                }
+            }
+            m.freeze()
+        });
+        if let Ok(fm) = fm {
+            lib_modules.insert("lib".to_owned(), fm);
+        }
+        kit::ctx_reset();
+        kit::ctx(|c| c.fail_at = fail_at);
+        files.push("lib.star".to_owned());
+    }
+    let loader = kit::MapLoader { modules: lib_modules };
     let frozen = Module::with_temp_heap(|module| {
         let mut shared: Option<Evaluator> = if reuse {
             let mut e = Evaluator::new(&module);
+            e.set_loader(&loader);
             configure(&mut e, limits);
             Some(e)
         } else {
@@ -330,6 +353,7 @@ fn run_history(case: &Json, fail_at: u64, reuse: bool, probe_after: Option<usize
                 Some(e) => run_step(e, &module, step, i, &files),
                 None => {
                     let mut e = Evaluator::new(&module);
+                    e.set_loader(&loader);
                     configure(&mut e, limits);
                     let r = run_step(&mut e, &module, step, i, &files);
                     ticks += e.get_total_tick_count();
@@ -423,6 +447,142 @@ fn fresh_probe() -> Vec<String> {
     out
 }
 
+const ENUM_SETUP: &str = "SELF_L = [1]\nSELF_L.append(SELF_L)\nSELF_D = {}\nSELF_D[\"s\"] = SELF_D\nREC = record(x = int)\nEN = enum(\"a\", \"b\")\nb_unknown = struct(f = lambda: 1)\n";
+
+const ENUM_ARGS: &[&str] = &[
+    "0", "1", "-1", "2", "7", "-3", "2147483647", "-2147483648", "(1 << 31)", "(1 << 63)", "-(1 << 63)", "(1 << 64)", "(1 << 200)",
+    "1.5", "-0.0", "float(\"nan\")", "float(\"inf\")", "None", "True", "\"\"", "\"a\"", "\"abc\" * 300", "\"h\\u00e9\\u65e5\"",
+    "[]", "[1, 2, 3]", "SELF_L", "{}", "{\"k\": 1}", "SELF_D", "()", "(1, \"a\", None)", "set([1, 2])", "range(0)", "range(5)", "range(1000)",
+    "struct(a = 1)", "len", "lambda *a, **k: a", "REC", "EN", "\"%s%s\"", "[None] * 1000",
+];
+
+const ENUM_RECEIVERS: &[&str] = &[
+    "\"hello world\"", "\"\"", "[3, 1, 2]", "[]", "{\"a\": 1, \"b\": 2}", "{}", "set([1, 2, 3])", "set()", "(1, 2)", "SELF_L", "SELF_D",
+    "range(3)", "REC(x = 1)", "EN(\"a\")", "1", "1.5", "struct(a = 1)", "json", "typing",
+];
+
+const ENUM_GLOBALS: &[&str] = &[
+    "abs", "all", "any", "bool", "chr", "dict", "dir", "enumerate", "float", "getattr", "hasattr", "hash", "int", "len", "list", "max", "min",
+    "ord", "range", "repr", "reversed", "sorted", "str", "tuple", "type", "zip", "struct", "set", "map", "filter", "partial", "record", "enum",
+    "field", "isinstance", "prepr", "pstr", "print", "fail", "eval_type", "call_stack", "namespace",
+];
+
+/// All callee expressions: global functions and `getattr(receiver, method)` for every method.
+fn enum_callees() -> Vec<String> {
+    let mut out: Vec<String> = ENUM_GLOBALS.iter().map(|s| (*s).to_owned()).collect();
+    Module::with_temp_heap(|m| {
+        let mut e = Evaluator::new(&m);
+        if let Ok(ast) = kit::parse("setup.star", ENUM_SETUP) {
+            let _ = e.eval_module(ast, kit::globals());
+        }
+        for r in ENUM_RECEIVERS {
+            if let Ok(ast) = kit::parse("recv.star", &format!("{r}\n")) {
+                if let Ok(v) = e.eval_module(ast, kit::globals()) {
+                    let mut names = v.dir_attr();
+                    names.sort();
+                    for n in names {
+                        out.push(format!("{r}.{n}"));
+                    }
+                }
+            }
+        }
+    });
+    out
+}
+
+fn enum_calls(case: &Json) -> (String, Vec<String>) {
+    let callees = enum_callees();
+    let callee = &callees[(case["callee_index"].as_u64().unwrap_or(0) as usize) % callees.len()];
+    let f2 = (case["second_for_first"].as_u64().unwrap_or(0) as usize) % ENUM_ARGS.len();
+    let f3 = (case["third"].as_u64().unwrap_or(0) as usize) % ENUM_ARGS.len();
+    let mut calls: Vec<String> = vec![format!("{callee}()")];
+    for a in ENUM_ARGS {
+        calls.push(format!("{callee}({a})"));
+    }
+    for b in ENUM_ARGS {
+        calls.push(format!("{callee}({}, {b})", ENUM_ARGS[f2]));
+        calls.push(format!("{callee}({b}, {})", ENUM_ARGS[f3]));
+    }
+    for b in ENUM_ARGS.iter().take(12) {
+        calls.push(format!("{callee}({}, {}, {b})", ENUM_ARGS[f2], ENUM_ARGS[f3]));
+        calls.push(format!("{callee}({}, key = {b})", ENUM_ARGS[f2]));
+        calls.push(format!("{callee}(*{b})"));
+        calls.push(format!("{callee}(**{b})"));
+    }
+    if let Some(explicit) = case["calls"].as_array() {
+        calls = explicit.iter().filter_map(|x| x.as_str().map(|s| s.to_owned())).collect();
+    }
+    (callee.clone(), calls)
+}
+
+fn execute_enum(case: &Json, mut o: Outcome) -> Outcome {
+    let (callee, calls) = enum_calls(case);
+    let callee = &callee;
+    let probe_ref = fresh_probe();
+    let printer = kit::TranscriptPrinter;
+    let files = vec!["call.star".to_owned(), "setup.star".to_owned()];
+    let mut log: Vec<String> = vec![callee.clone()];
+    kit::ctx_reset();
+    // A fresh module every 40 calls (receivers such as SELF_L are mutated by some methods).
+    for chunk in calls.chunks(40) {
+        if o.violation.is_some() {
+            break;
+        }
+        Module::with_temp_heap(|m| {
+            let mut e = Evaluator::new(&m);
+            e.set_print_handler(&printer);
+            if let Ok(ast) = kit::parse("setup.star", ENUM_SETUP) {
+                let _ = e.eval_module(ast, kit::globals());
+            }
+            for c in chunk {
+                let text = format!("r_v = {c}\nemit(type(r_v), len(repr(r_v)) < 2000000)\n");
+                let before = kit::ctx(|x| x.transcript.len());
+                let r = match kit::parse("call.star", &text) {
+                    Err(e) => Err(e),
+                    Ok(ast) => e.eval_module(ast, kit::globals()).map(|_| ()),
+                };
+                let _ = kit::ctx(|x| x.transcript.split_off(before));
+                o.sim_time += 1;
+                match r {
+                    Ok(()) => {
+                        o.bump("enum_calls_ok", 1);
+                        log.push(format!("{c} ok"));
+                    }
+                    Err(err) => {
+                        o.nontrivial = true;
+                        o.bump("fault.natural_or_illtyped_failure", 1);
+                        log.push(format!("{c} -> {}", kit::clip(&format!("{}", err.without_diagnostic()))));
+                        for (class, detail) in check_error(&err, &files, true) {
+                            o.violate(&class, &class, format!("call `{c}`: {detail}"));
+                        }
+                        if kit::error_kind(&err) == "Internal" {
+                            o.violate("internal-error", "internal-error", format!("call `{c}`: {}", kit::clip(&kit::error_text(&err))));
+                        }
+                    }
+                }
+                if e.call_stack_count() != 0 {
+                    o.violate("callstack-not-empty", "callstack-not-empty", format!("after call `{c}`: call_stack_count() == {}", e.call_stack_count()));
+                }
+                if o.violation.is_some() {
+                    // Name the call in the replayable case.
+                    return;
+                }
+            }
+            // Probe on the same evaluator after a batch of (mostly failing) calls.
+            let before = kit::ctx(|x| x.transcript.len());
+            let r = run_step(&mut e, &m, &json!({"kind": "module", "text": PROBE}), 999, &["h999.star".to_owned()]);
+            let _ = kit::ctx(|x| x.transcript.split_off(before));
+            o.bump("probe.probe_evaluations", 1);
+            if let Some(d) = kit::diff_transcripts(&probe_ref, &r.transcript) {
+                o.violate("probe-differs-after-failure", "probe", format!("after a batch of calls of `{callee}`: {d}"));
+            }
+        });
+    }
+    o.bump("enum_cases", 1);
+    o.log_hash = kit::hash_lines(&log);
+    o
+}
+
 impl World for C07 {
     fn id(&self) -> &'static str {
         "C07"
@@ -448,6 +608,12 @@ impl World for C07 {
     }
 
     fn generate(&self, seed: u64, index: u64, tier: Tier) -> Json {
+        if index % 4 == 3 {
+            // Enumeration of builtin / method calls over the extreme-value catalogue: every
+            // call is its own evaluation on ONE evaluator (a history in which most steps fail).
+            let mut r = Rng::new(run_seed(seed, "C07enum", index));
+            return json!({"mode": "enum", "callee_index": index / 4, "second_for_first": r.below(64), "third": r.below(64)});
+        }
         let root = Rng::new(run_seed(seed, "C07", index));
         let mut wl = root.fork("workload");
         let mut fl = root.fork("faults");
@@ -455,6 +621,14 @@ impl World for C07 {
         let mut steps = Vec::new();
         let mut funcs: Vec<String> = Vec::new();
         let mode = wl.below(10);
+        // A frozen library module whose functions (with fault sites, calling each other) are
+        // load()ed and called by the history: the frozen-def call path.
+        let (lib_text, lib_funcs) = {
+            let (t, f) = gen_nest(&mut wl, 77, &[]);
+            // Drop the top-level calls of the generated nest: the library only defines.
+            let t: String = t.lines().filter(|l| !l.starts_with("emit(") && !l.starts_with("for t in") && !l.starts_with("    emit(")).map(|l| format!("{l}\n")).collect();
+            (format!("S = {{\"n\": 0, \"log\": []}}\n{t}"), f)
+        };
         for i in 0..n {
             let r = wl.below(10);
             if i > 0 && r < 2 && !funcs.is_empty() {
@@ -465,9 +639,17 @@ impl World for C07 {
             } else if i > 0 && (r < 6 || mode == 0) {
                 steps.push(json!({"kind": "module", "text": gen_illtyped(&mut wl, i)}));
             } else {
-                let (text, fs) = gen_nest(&mut wl, i, &funcs);
+                let use_lib = wl.chance(1, 2);
+                let mut callable = funcs.clone();
+                let mut load = String::new();
+                if use_lib {
+                    let lf = &lib_funcs[wl.usize(lib_funcs.len())];
+                    load = format!("load(\"lib\", l{i}_{lf} = \"{lf}\")\n");
+                    callable = vec![format!("l{i}_{lf}")];
+                }
+                let (text, fs) = gen_nest(&mut wl, i, &callable);
                 funcs.extend(fs);
-                steps.push(json!({"kind": "module", "text": text}));
+                steps.push(json!({"kind": "module", "text": format!("{load}{text}")}));
             }
         }
         let nf = match tier {
@@ -476,6 +658,7 @@ impl World for C07 {
         };
         let fracs: Vec<f64> = (0..nf).map(|_| (fl.below(1_000_000) as f64) / 1_000_000.0).collect();
         json!({
+            "lib": lib_text,
             "steps": steps,
             "fault_fracs": fracs,
             "all_faults_if_at_most": if tier == Tier::Thorough { 60 } else { 10 },
@@ -486,6 +669,9 @@ impl World for C07 {
     fn execute(&self, case: &Json) -> Outcome {
         let mut o = Outcome::default();
         o.digest = fnv(case.to_string().as_bytes());
+        if case["mode"] == "enum" {
+            return execute_enum(case, o);
+        }
         let mut log: Vec<String> = Vec::new();
         let probe_ref = fresh_probe();
         // Fault-free reference (natural failures still happen).
@@ -604,6 +790,25 @@ impl World for C07 {
     fn shrink(&self, case: &Json) -> Vec<Json> {
         let mut out = Vec::new();
         let empty = Vec::new();
+        if case["mode"] == "enum" {
+            let (_, calls) = enum_calls(case);
+            let n = calls.len();
+            if n > 1 {
+                for (lo, hi) in [(0, n / 2), (n / 2, n)] {
+                    let mut c = case.clone();
+                    c["calls"] = json!(calls[lo..hi].to_vec());
+                    out.push(c);
+                }
+                if n <= 8 {
+                    for call in &calls {
+                        let mut c = case.clone();
+                        c["calls"] = json!([call]);
+                        out.push(c);
+                    }
+                }
+            }
+            return out;
+        }
         let steps = case["steps"].as_array().unwrap_or(&empty);
         for i in (0..steps.len()).rev() {
             if steps.len() > 1 {
